@@ -172,7 +172,7 @@ Proof. exact (proj1 ttoks_render_all). Qed.
 
 (* ---------- 2. every token carries exactly the quote its origin prescribes ---------- *)
 Definition ctx_ok (v : conv) (og : origin) (c : ctx) : Prop :=
-  q c = v_q v /\ sq c = og_sq v og /\ aq c = og_aq v og /\ askw c = og_as v og.
+  q c = v_q v /\ sq c = og_sq v og /\ aq c = og_aq v og /\ askw c = og_as v og /\ og_adm v og = true.
 Definition ex (v : conv) (ts : list dtok) : Prop := Forall (exact_tok v) ts.
 
 Lemma ctx_ok_set_wa v og c b : ctx_ok v og c -> ctx_ok v og (set_wa c b).
@@ -189,11 +189,11 @@ Proof. intros [H _]. repeat split; assumption. Qed.
 Lemma ex_nil v : ex v [].
 Proof. constructor. Qed.
 Lemma ex_T v s ts : ex v ts -> ex v (T s :: ts).
-Proof. intros H. constructor; [exact I|exact H]. Qed.
+Proof. intros H. constructor; [split; exact I|exact H]. Qed.
 Lemma ex_V v s ts : ex v ts -> ex v (V s :: ts).
-Proof. intros H. constructor; [exact I|exact H]. Qed.
+Proof. intros H. constructor; [split; exact I|exact H]. Qed.
 Lemma ex_bool v b sl ts : ex v ts -> ex v ((false, ABool b sl) :: ts).
-Proof. intros H. constructor; [exact I|exact H]. Qed.
+Proof. intros H. constructor; [split; exact I|exact H]. Qed.
 Lemma ex_app v a b : ex v a -> ex v b -> ex v (a ++ b).
 Proof. intros. apply Forall_app; split; assumption. Qed.
 Lemma ex_tparen v b ts : ex v ts -> ex v (tparen b ts).
@@ -211,19 +211,19 @@ Proof.
   - change (tjoin sep (x :: y :: r')) with (x ++ T sep :: tjoin sep (y :: r')). apply ex_app; [exact Hx|apply ex_T, IH].
 Qed.
 Lemma ex_ident v og c name ts : ctx_ok v og c -> ex v ts -> ex v ((false, AId RIdent (q c) name og) :: ts).
-Proof. intros [H _] Ht. constructor; [exact H|exact Ht]. Qed.
+Proof. intros (H & _ & _ & _ & Hadm) Ht. constructor; [split; [exact H|exact Hadm]|exact Ht]. Qed.
 Lemma ex_qual v og c tb name ts : ctx_ok v og c -> ex v ts -> ex v ((false, AId (qual_role tb) (q c) name og) :: ts).
 Proof.
-  intros [H _] Ht. constructor; [|exact Ht]. unfold qual_role.
-  destruct (truthy_ostr (talias tb)); [destruct (tname tb)|]; exact H.
+  intros (H & _ & _ & _ & Hadm) Ht. constructor; [|exact Ht]. unfold qual_role.
+  destruct (truthy_ostr (talias tb)); [destruct (tname tb)|]; (split; [exact H|exact Hadm]).
 Qed.
 Lemma ex_str v og c s ts : ctx_ok v og c -> ex v ts -> ex v ((false, AStr (sq c) s og) :: ts).
-Proof. intros [_ [H _]] Ht. constructor; [exact H|exact Ht]. Qed.
+Proof. intros (_ & H & _ & _ & Hadm) Ht. constructor; [split; [exact H|exact Hadm]|exact Ht]. Qed.
 Lemma ex_alias v og c ts alias : ctx_ok v og c -> ex v ts -> ex v (alias_toks c og (q c) ts alias).
 Proof.
-  intros [Hq [_ [Ha Hk]]] Ht. unfold alias_toks, falias. destruct alias as [a|]; [|exact Ht].
-  apply ex_app; [exact Ht|]. constructor; [exact Hk|]. constructor; [|constructor].
-  cbn [exact_tok snd]. rewrite Ha, Hq. reflexivity.
+  intros (Hq & _ & Ha & Hk & Hadm) Ht. unfold alias_toks, falias. destruct alias as [a|]; [|exact Ht].
+  apply ex_app; [exact Ht|]. constructor; [split; [exact Hk|exact Hadm]|]. constructor; [|constructor].
+  split; [|exact Hadm]. cbn [exact_q snd]. rewrite Ha, Hq. reflexivity.
 Qed.
 Lemma ex_field v og c name tbl : ctx_ok v og c -> ex v (field_toks c og name tbl).
 Proof.
@@ -246,11 +246,13 @@ Definition Ew (l : wlist) := forall c og v ss, ctx_ok v og c -> ttoks_whens c og
 Definition Eo (o : oterm) := match o with ONone => True | OSome t => Et t end.
 
 Lemma ex_falias v og r ts alias qc aqc kw :
-  (forall a, exact_tok v (false, AId r (or_ostr aqc qc) a og)) -> kw = og_as v og -> ex v ts ->
+  (forall a, exact_q v (false, AId r (or_ostr aqc qc) a og)) -> kw = og_as v og -> og_adm v og = true ->
+  (match r with RQAlias ci => v_adm v ci = true \/ ci = CQuery | _ => True end) -> ex v ts ->
   ex v (falias r og ts alias qc aqc kw).
 Proof.
-  intros Hq Hk Ht. unfold falias. destruct alias as [a|]; [|exact Ht].
-  apply ex_app; [exact Ht|]. constructor; [exact Hk|]. constructor; [apply Hq|constructor].
+  intros Hq Hk Hadm Hr Ht. unfold falias. destruct alias as [a|]; [|exact Ht].
+  apply ex_app; [exact Ht|]. constructor; [split; [exact Hk|exact Hadm]|]. constructor; [split; [apply Hq|]|constructor].
+  unfold adm_tok. cbn [snd]. destruct r; try exact Hadm. split; [exact Hadm|exact Hr].
 Qed.
 
 Ltac use_ih :=
@@ -283,8 +285,8 @@ Proof.
   - (* TArith *) intros op l IHl r IHr alias c og v ts Hc H. cbn [ttoks] in H. inv_ok H.
     use_ih. destruct (wa c); auto 8 with exdb.
   - (* TBasic *) intros cm l IHl r IHr alias c og v ts Hc H. cbn [ttoks] in H. inv_ok H.
-    use_ih. destruct (wa c); [|auto with exdb]. destruct Hc as [Hq [_ [Ha Hk]]].
-    apply ex_falias; [|exact Hk|auto with exdb]. intros ?. cbn [exact_tok snd]. rewrite Ha. reflexivity.
+    use_ih. destruct (wa c); [|auto with exdb]. destruct Hc as (Hq & _ & Ha & Hk & Hadm).
+    apply ex_falias; [|exact Hk|exact Hadm|exact I|auto with exdb]. intros ?. cbn [exact_q snd]. rewrite Ha. reflexivity.
   - (* TCplx *) intros bo l IHl r IHr alias c og v ts Hc H. cbn [ttoks] in H. inv_ok H.
     use_ih. auto 8 with exdb.
   - (* TIn *) intros t IHt cont IHc negated alias c og v ts Hc H. cbn [ttoks] in H. inv_ok H.
@@ -317,8 +319,8 @@ Proof.
   - (* TSub *) intros col tbl alias c og v ts Hc H. cbn [ttoks] in H. inv_ok H.
     assert (X : ex v (tparen (subq c) [T "SELECT "; (false, AId RIdent (q c) col og); T " FROM "; (false, AId RIdent (q c) tbl og)]))
       by auto 10 with exdb.
-    destruct (wa c); [|exact X]. destruct Hc as [Hq [_ [Ha Hk]]].
-    apply ex_falias; [|exact Hk|exact X]. intros ?. cbn [exact_tok snd]. rewrite Hq. reflexivity.
+    destruct (wa c); [|exact X]. destruct Hc as (Hq & _ & Ha & Hk & Hadm).
+    apply ex_falias; [|exact Hk|exact Hadm|right; reflexivity|exact X]. intros ?. cbn [exact_q snd]. rewrite Hq. reflexivity.
   - (* TNil *) intros c og v ss Hc H. inversion H. constructor.
   - (* TCons *) intros t IHt r IHr c og v ss Hc H. cbn [ttoks_list] in H. inv_ok H. use_ih. constructor; assumption.
   - (* WNil *) intros c og v ss Hc H. inversion H. constructor.
